@@ -167,7 +167,18 @@ func installHook() {
 		if k.l0 > 0 {
 			o.L0CompactionThreshold = k.l0
 		}
+		o.Logger = quietLogger{}
 	}
+}
+
+// quietLogger drops Pebble's routine diagnostics; a fatal condition becomes a
+// panic (reported as a violation of class "panic") instead of os.Exit.
+type quietLogger struct{}
+
+func (quietLogger) Infof(string, ...interface{})  {}
+func (quietLogger) Errorf(string, ...interface{}) {}
+func (quietLogger) Fatalf(format string, args ...interface{}) {
+	panic("pebble fatal: " + fmt.Sprintf(format, args...))
 }
 
 // ---------------------------------------------------------------------------
